@@ -68,6 +68,10 @@ def w_missing(job):
         lmiss = {k for k, v in zip(lkeys, lv) if isna(v)}
         rmiss = {k for k, v in zip(rkeys, rv) if isna(v)}
         exp_missing = sorted((a, b) for a in lkeys for b in rkeys if a in lmiss or b in rmiss)
+        removed = None
+        if (lmiss or rmiss) and job.get('removed_rows', True):
+            removed = (L.iloc[[i for i, v in enumerate(lv) if not isna(v)]],
+                       R.iloc[[i for i, v in enumerate(rv) if not isna(v)]])
         nm = len(exp_missing)
         entries = [('join', c) for c in JOINS] + [('filter', c) for c in FILTS]
         for kind, cfg in entries:
@@ -94,6 +98,17 @@ def w_missing(job):
                     for r in brow:
                         if r[0] in lmiss or r[1] in rmiss:
                             problems.append('allow_missing=False returned a row with a missing value: %r' % (r,))
+                    # the same call on the tables with the missing rows removed (rows with a missing value
+                    # contribute no tokens, so even the token order is the same)
+                    if removed is not None:
+                        sched.CTL.reset()
+                        clean = run_entry(kind, cfg, removed[0], removed[1], False, sc, attrs, nj)
+                        calls += 1
+                        crow = [tuple(cell(v) for v in r) for r in clean[cols].values.tolist()]
+                        if sorted(crow, key=repr) != sorted(brow, key=repr):
+                            problems.append('result differs from the call on the tables without the missing rows: '
+                                            'only with missing rows present %r, only without %r' % (
+                                                [r for r in brow if r not in crow][:3], [r for r in crow if r not in brow][:3]))
                     if list(full.columns) != list(base.columns):
                         problems.append('columns differ: %r vs %r' % (list(full.columns), list(base.columns)))
                     pres_rows = [r for r in frow if not (r[0] in lmiss or r[1] in rmiss)]
@@ -183,22 +198,24 @@ def w_missing(job):
                                                      'right=%r keeps missing pairs %r (expected %r) and %d rows (expected %d)'
                                                      % (name, am, lv, rv, kept2, want2, len(got_rows), len(exp_rows)),
                                              'detail': {}})
-                om = lib(ssj.apply_matcher, C, 'l_id', 'r_id', L, R, 'id', 'id', 's', 's',
-                         make_tokenizer(['ws', True]), Jaccard().get_raw_score, 0.5, '>=', am, None, None,
-                         'l_', 'r_', True, job['n_jobs'][-1], False)
-                calls += 1
-                cases += 1
-                got = sorted((cell(a), cell(b)) for a, b, s in zip(om['l_id'].tolist(), om['r_id'].tolist(),
-                                                                   om['_sim_score'].tolist()) if isna(s))
-                rows_m = sorted((cell(a), cell(b)) for a, b in zip(om['l_id'].tolist(), om['r_id'].tolist())
-                                if cell(a) in lmiss or cell(b) in rmiss)
-                if rows_m != (exp_missing if am else []) or got != rows_m:
-                    nviol += 1
-                    if len(viol) < MAXV:
-                        viol.append({'key': 'C08|matcher|am%s|%r|%r' % (am, lv, rv),
-                                     'what': 'C08: apply_matcher(allow_missing=%s) on the full cross product of '
-                                             'left=%r right=%r returned missing pairs %r (NaN-scored %r), expected %r'
-                                             % (am, lv, rv, rows_m, got, exp_missing if am else []), 'detail': {}})
+                for mop in ('>=', '>', '<=', '<', '=', '!='):
+                    om = lib(ssj.apply_matcher, C, 'l_id', 'r_id', L, R, 'id', 'id', 's', 's',
+                             make_tokenizer(['ws', True]), Jaccard().get_raw_score, 0.5, mop, am, None, None,
+                             'l_', 'r_', True, job['n_jobs'][-1], False)
+                    calls += 1
+                    cases += 1
+                    got = sorted((cell(a), cell(b)) for a, b, s_ in zip(om['l_id'].tolist(), om['r_id'].tolist(),
+                                                                        om['_sim_score'].tolist()) if isna(s_))
+                    rows_m = sorted((cell(a), cell(b)) for a, b in zip(om['l_id'].tolist(), om['r_id'].tolist())
+                                    if cell(a) in lmiss or cell(b) in rmiss)
+                    if rows_m != (exp_missing if am else []) or got != rows_m:
+                        nviol += 1
+                        if len(viol) < MAXV:
+                            viol.append({'key': 'C08|matcher|%s|am%s|%r|%r' % (mop, am, lv, rv),
+                                         'what': 'C08: apply_matcher(comp_op %s, allow_missing=%s) on the full cross product '
+                                                 'of left=%r right=%r returned missing pairs %r (NaN-scored %r), expected %r'
+                                                 % (mop, am, lv, rv, rows_m, got, exp_missing if am else []),
+                                         'detail': {}})
     return {'cases': cases, 'calls': calls, 'nontrivial': nontrivial, 'outcomes': outs,
             'extra': {'violations': nviol}, 'viol': viol,
             'sample': {'left': [VALS[k] for k in T[job['pairs'][0][0]]],
@@ -220,7 +237,7 @@ def layers(tier):
     # presentation sub-space that does not depend on VERIF_SEED: NaN markers, duplicate / string index
     # labels, extra columns, pandas str columns
     small = [(i, j) for (i, j) in pairs if len(T[i]) <= 2 and len(T[j]) <= 2]
-    pjobs = [{'maxrows': mr, 'pairs': small[k:k + 10], 'n_jobs': [1, 2], 'pres': p}
+    pjobs = [{'maxrows': mr, 'pairs': small[k:k + 10], 'n_jobs': [1, 2], 'pres': p, 'removed_rows': False}
              for p in (1, 3, 5) for k in range(0, len(small), 10)]
     return [Layer('missing', 'checks.c08:w_missing', jobs,
                   '%d pairs of tables with 0..%d rows over {missing, "a", "a b"} (quick: 3x3-row pairs only over {missing, "a"}; thorough: all 1600) x 6 joins + 5 filter_tables '
